@@ -10,8 +10,7 @@ NOT_APPLICABLE = {
     'C16': 'pending-entry accounting is BTreeMap/HashMap<String,_>/Mutex-counter code that Verus rejects and that Kani cannot execute in useful time (probed); no obligation can be discharged',
     'C17': 'dominance of the auth gate over all dispatch paths in process_connection/process_frame (sockets, closures, string matching): callers cannot be verified, so handler preconditions cannot be discharged',
     'C18': 'data-flow of the db index through four dispatch paths in the server/Lua/blocking layers; only the trivial storage half is provable',
-    'C06': _PENDING, 'C07': _PENDING, 'C09': _PENDING, 'C10': _PENDING, 'C11': _PENDING, 'C13': _PENDING, 'C14': _PENDING,
-    'C15': _PENDING, 'C19': _PENDING, 'C20': _PENDING,
+    'C14': 'the delivery rule lives in PubSubManager::publish (nested iteration over HashMap<Vec<u8>,HashSet<u64>> behind Mutexes), which is not yet a verifiable unit: Verus needs ghost-iterator invariants over two hash containers and Kani cannot execute them; the glob matcher alone does not carry the property. A C14 defect (per-connection de-duplication) was found by reading and repaired (fix 7e3f5e6) but no registered check would detect its return, so nothing is claimed',
 }
 _TB = 'Trusted: Verus/Z3, Kani/CBMC; the std contracts and stubs listed verbatim in evidence coverage.trusted_base (assume_specification / external_body / axioms in /verif/prelude); R2 lock elimination; same-instant clock assumption. '
 CHECKS = {
@@ -31,3 +30,33 @@ CHECKS = {
             'text': 'Deductive proof that every shard mutator under contract records the key it changes in the modification log whenever the key\'s stored state (value or deadline) changes, and records no other key. Kernel-scoped: storage half only.',
             'note': _TB + 'Assumed: ShardWatchTracker turns a mark into was_modified_since == true (atomics + inner RwLock<HashMap>, not under contract); handle_watch/handle_exec wiring.'},
 }
+
+CHECKS.update({
+    'C06': {'technique': 'safety obligations (overflow, bounds, unwrap, allocation budget) of all Verus units + complete Kani harnesses', 'design_ref': '§6 C06',
+            'text': 'For every function under contract in any check, deductive proof for ALL argument values that no index/slice-range error, arithmetic overflow/underflow, failing unwrap, or reservation larger than the bytes received can occur, and that its loops terminate; plus complete Kani proofs for stream-ID generation and the RDB length reader on arbitrary bytes. The claim is "no panic in these functions", listed in evidence, not "no panic in the server".',
+            'note': _TB + 'Not covered: recursion depth, heap exhaustion in general, deadlock/hang, any function not under contract (server dispatch layer, Lua). Known finding: StreamId sequence overflow.'},
+    'C07': {'technique': 'Verus contracts on extracted transaction-state functions + exhaustive table enumeration', 'design_ref': '§6 C07',
+            'text': 'Deductive proof that MULTI, DISCARD and the queueing step change the per-connection transaction state exactly as prescribed (order-preserving push, nothing else touched, errors leave the state unchanged); should_queue_command (real body) evaluated on every dispatched command name. EXEC atomicity/isolation/ordering are NOT decided (single-thread schedule property of Server::handle_exec).',
+            'note': _TB + 'Connection is a two-field stub (any other field access fails to compile = exit 2). Not covered: Server::handle_exec, disconnect handling.'},
+    'C09': {'technique': 'Kani complete harnesses on extracted codec functions + Verus contract on the expiry-on-load computation', 'design_ref': '§6 C09',
+            'text': 'Complete proofs (full input domains) that the RDB length encoding and the fixed-width integer/float fields decode to exactly what was encoded and consume exactly the bytes written, and a deductive proof that a key read with a deadline is never loaded without one (passed deadline = zero TTL, future deadline = exact remaining time). Value-level round trip (lists/sets/hashes/zsets/streams through hash containers) is not under contract.',
+            'note': _TB + 'Byte sink/source replaced by arrays in the extracted twin (stated in contracts/kani/rdb_codec.rs); lengths >= 2^32 excluded (cannot be encoded).'},
+    'C10': {'technique': 'Kani complete harness: RDB length reader total on arbitrary bytes', 'design_ref': '§6 C10',
+            'text': 'Only the corrupted-input clause, and only for the length reader: for arbitrary source bytes read_length never panics, never reads past the data, and reports a short read as an error. Crash points inside save, the bgsave flag, and per-key consistency under concurrent writers are about failures and interleavings and are NOT decided by any contract here.',
+            'note': _TB + 'read_string\'s `vec![0u8; len]` sized by a file length field (<= 4 GiB) is a known limitation of the reader (no notion of remaining length), not under contract.'},
+    'C11': {'technique': 'exhaustive enumeration of the extracted classification function over the extracted dispatch table', 'design_ref': '§6 C11',
+            'text': 'is_write_command (real body, extracted each run) evaluated on every command name the server dispatches (table extracted each run) against a fixed catalogue of Redis write commands: every dispatched write command is logged, no read command is. Classification kernel only: append-before-dispatch order, EXEC/script/blocking paths, determinism of random commands and the (unimplemented) replay are not decided.',
+            'note': 'Trusted: the catalogue spec/write_catalogue.txt; rustc. Known finding: BLPOP/BRPOP/XREADGROUP.'},
+    'C13': {'technique': 'Verus contracts on extracted blocking-registry functions', 'design_ref': '§6 C13',
+            'text': 'Deductive proof that the registry serves waiters of a key in the order they blocked, keeps its invariant (key set = domain of the waiter map, no empty queues), leaves other keys untouched, and that the branch of notify_key_ready which picks a client leaves no registration of that client behind. Registry kernel only.',
+            'note': _TB + 'Assumed: unregister_client (iter_mut/retain closures) contract; not covered: wake_client/process_wakeups/connection state, timeouts, the conservation law pushed = delivered + remaining.'},
+    'C15': {'technique': 'Kani complete harnesses on extracted StreamId functions; bounded Kani stand-ins for log reads', 'design_ref': '§6 C15',
+            'text': 'Complete proofs over the full u64 domains that an auto-generated ID is strictly greater than the previous top ID and that the duplicated atomics agree with it (one known finding: sequence overflow), and that ID packing/ordering is lexicographic on (millis, seq). Explicit-ID admission and XREAD (range_after) are checked only boundedly (<= 3 entries) and are labelled so.',
+            'note': _TB + 'StreamEntry payload type replaced by () in the extracted twin; clock = arbitrary u64; atomics sequential (callers hold the stream mutex). XRANGE/XREVRANGE (StreamData::range) is NOT under contract: CBMC needs > 7 min per single-entry instance.'},
+    'C19': {'technique': 'Verus loop invariant on the extracted SCAN window + lemmas over the contract', 'design_ref': '§6 C19',
+            'text': 'Deductive proof for all key lists, cursors, COUNT values and patterns that one SCAN step returns exactly the matching keys of the window it examined, in order, stops early only when a budget is exhausted and then with progress, and returns cursor 0 exactly at the end; lemmas show a full iteration over an unchanged key space is complete and sound. Stability under concurrent deletions (the property\'s hard part) is FALSE for this cursor design and is a listed known finding.',
+            'note': _TB + 'Assumed: glob matcher pattern_matches as an uninterpreted relation; the key collection/sort prelude and HSCAN/SSCAN/ZSCAN are not under contract.'},
+    'C20': {'technique': 'Verus contracts on extracted parser functions against a RESP grammar oracle', 'design_ref': '§6 C20',
+            'text': 'Deductive proof for arbitrary bytes that parse_line and parse_bulk_string compute exactly the RESP grammar oracle (frame, request for more data, or error) with payload bytes and consumed count exact; chunking lemmas over the oracle (a complete frame or an error never changes when more bytes arrive); all aggregate parsers and the dispatcher are total, progressing, terminating and never reserve more than the bytes received.',
+            'note': _TB + 'Assumed: the four line-frame parsers using tuple-pattern closures (consumed-bounds contract only); not covered: serializer round trip, RespParser::feed/parse buffer management.'},
+})
